@@ -279,7 +279,10 @@ pub fn oracle_c05(scn: &E3Scn, d: &D3, out: &RunOut, stats: &mut Stats) -> Vec<V
                     if st < 1000 && e < qt {
                         // (the end of the run as the job task observed it)
                         let at_end: Vec<_> = pre.iter().filter(|(_, n)| n.spawn_t == e && n.spawn_seq > rseq).collect();
-                        if at_end.len() != 1 && d.spawn_fails == 0 {
+                        // (another batch of changes delivered at that very instant finds the job between runs and may
+                        // start a run of its own if the follow-up is already over by then, e.g. ended by a forwarded signal)
+                        let others = change_batches.iter().filter(|o| o.1 != bseq && o.0 == e).count();
+                        if (at_end.is_empty() || at_end.len() > 1 + others) && d.spawn_fails == 0 {
                             vs.push(Violation::new(
                                 "queue-wrong-follow-up",
                                 "",
